@@ -18,11 +18,46 @@ def production_sentences(dname):
     ctx = d.contexts()
     out = []
     seen = set()
+    # the shortest sentence of a production may be refused by an ACTION (the preferred expansion `SELECT x FROM y` of `select` followed by a second FROM):
+    # such productions get a sentence built with the next preference that the real parser accepts, so that they are exercised at all
+    alt_tables = None
+
+    def accepted(text):
+        from mindsdb_sql import parse_sql
+        try:
+            parse_sql(text, dialect=dname)
+            return True
+        except Exception:
+            return False
+
+    def alternatives(p):
+        nonlocal alt_tables
+        if alt_tables is None:
+            alt_tables = []
+            saved = (type(d).PREFERRED, d._minexp)
+            for pref in ({'select': ['SELECT', 'ID']}, {'select': ['SELECT', 'STAR', 'FROM', 'ID']}, {}):
+                try:
+                    type(d).PREFERRED = pref
+                    d._minexp = None
+                    me_ = d.min_expansions()
+                    alt_tables.append((dict(me_), d.contexts()))
+                finally:
+                    type(d).PREFERRED, d._minexp = saved
+        for me_, ctx_ in alt_tables:
+            if p.name in ctx_ and all(s_ in me_ for s_ in p.prod):
+                pre, suf = ctx_[p.name]
+                yield pre + [t for s_ in p.prod for t in me_[s_]] + suf
     for p in d.prods[1:]:
         kinds = d.sentence_for_production(p, ctx)
         if kinds is None or len(kinds) > 60:
             continue
         text = d.text_for(kinds)
+        if text is not None and not accepted(text):
+            for kinds2 in alternatives(p):
+                t2 = d.text_for(kinds2) if len(kinds2) <= 60 else None
+                if t2 is not None and accepted(t2):
+                    text = t2
+                    break
         if text is None or text in seen:
             continue
         seen.add(text)
